@@ -107,6 +107,23 @@ def write_files(case, tmp):
     return paths, pathlib.Path(seq)
 
 
+def itp_edges(text):
+    """bond graph recounted from a written .itp (node key = atom number - 1; valid when no atom was removed)"""
+    edges, section = [], None
+    for line in text.splitlines():
+        line = line.split(";")[0].strip()
+        if not line or line.startswith("#"):
+            continue
+        if line.startswith("["):
+            section = line.strip("[] ").lower()
+            continue
+        natoms = {"bonds": 2, "constraints": 2, "angles": 3, "dihedrals": 4}.get(section)
+        if natoms:
+            atoms = [int(t) - 1 for t in line.split()[:natoms]]
+            edges += [[a, b] for a, b in zip(atoms, atoms[1:])]
+    return edges
+
+
 def ownership(case):
     """atoms of every residue as the generator defines them: residues in resid order own consecutive node keys"""
     sizes = {b["name"]: len(b["atoms"]) for b in case["blocks"]}
@@ -136,20 +153,43 @@ def one_missing_case(ctx, case):
             alive = set(int(k) for k in meta.molecule.nodes)
             # (b) the command, with its log records
             out = pathlib.Path(os.path.join(tmp, "out.itp"))
-            with capture_warnings() as cap:
-                gen_params(name="verif", outpath=out, inpath=paths, seq_file=seq)
+            # the bond graph of THAT run (its link application may visit matches in another order than (a)):
+            # taken from the molecule handed to find_missing_edges inside gen_params (harness-side interposition),
+            # or, if the command no longer goes through that attribute, recounted from the written .itp
+            import polyply.src.gen_itp as gen_itp_module
+            captured = {}
+            original = getattr(gen_itp_module, "find_missing_edges", None)
+
+            def spy(res_graph, molecule):
+                captured["medges"] = [[int(u), int(v)] for u, v in molecule.edges]
+                captured["alive"] = set(int(k) for k in molecule.nodes)
+                return original(res_graph, molecule)
+            if original is not None:
+                gen_itp_module.find_missing_edges = spy
+            try:
+                with capture_warnings() as cap:
+                    gen_params(name="verif", outpath=out, inpath=paths, seq_file=seq)
+            finally:
+                if original is not None:
+                    gen_itp_module.find_missing_edges = original
             written = out.exists()
+            if "medges" in captured:
+                run_edges, run_alive = captured["medges"], captured["alive"]
+                ctx.tally(bond_graph_source="interposed")
+            else:
+                run_edges, run_alive = itp_edges(out.read_text()), alive
+                ctx.tally(bond_graph_source="itp-recount")
         except Exception as err:  # pylint: disable=broad-except
             ctx.oracle_fail("pipeline-raises", "gen_params / link application raised %s: %s on a valid input %s"
                             % (type(err).__name__, str(err)[:200], case["graph"]), replay)
             return None
     warnings = [text for level, text in cap.records if level >= logging.WARNING]
     own = ownership(case)
-    removed = any(a not in alive for atoms in own.values() for a in atoms)
-    req_nodes = [[k, resid, resname, [a for a in own[k] if a in alive], []] for k, resid, resname in case["graph"]["nodes"]]
+    removed = any(a not in run_alive for atoms in own.values() for a in atoms)
+    req_nodes = [[k, resid, resname, [a for a in own[k] if a in run_alive], []] for k, resid, resname in case["graph"]["nodes"]]
     reqs = [dict(op="missing", nodes=[[n["key"], n["resid"], n["resname"], n["frag"], n["fedges"]] for n in resgraph["res"]],
                  redges=resgraph["redges"], medges=medges),
-            dict(op="missing", nodes=req_nodes, redges=[[u, v] for u, v, _ in case["graph"]["edges"]], medges=medges)]
+            dict(op="missing", nodes=req_nodes, redges=[[u, v] for u, v, _ in case["graph"]["edges"]], medges=run_edges)]
     return dict(case=case, replay=replay, direct=direct, warnings=warnings, removed=removed, written=written, reqs=reqs)
 
 
